@@ -286,7 +286,7 @@ func stateInAnnotationObjectKey(s *Scanner, c byte) state {
 	case c == s.boundary:
 		s.step = stateEndValue
 
-	case c == ' ':
+	case bytes.IsSpace(c): // a blank or a tab ends the name
 		s.step = stateInAnnotationObjectKeyAfter
 
 	case c < 0x20 || (c == '"' || bytes.IsNewLine(c)):
@@ -300,7 +300,7 @@ func stateInAnnotationObjectKeyAfter(s *Scanner, c byte) state {
 	case s.boundary == 0 && c == ':':
 		return stateEndValue(s, c)
 
-	case c == ' ':
+	case bytes.IsSpace(c):
 		return scanContinue
 	}
 	panic(s.newJSchemaError(errs.ErrInvalidCharacterInAnnotationObjectKey, c))
